@@ -43,6 +43,7 @@ FIXED = [
  ("C14", "fix: dropping a column family left", "btree engine: bulk load of b000.. (every third row holding f1 and f2), ModifyColumnFamilies drop f1 -> rows after the first rewritten one in a full tree node keep their f1 cells and reads return them (ModifyColumnFamilies rewrote rows inside the iteration; a replacement splits a full node and truncates the node being walked; also C17: SampleRowKeys differs between engines; replays in findings/)"),
  ("C16", "fix: a garbage-collection pass skipped", "btree engine: 31 or more rows inserted once in key order, one forced pass -> condemned cells stay in the rows the iteration skipped (same mechanism as the family drop; replay in findings/)"),
  ("C20", "fix: a scan crashed the server when the table was cleared", "leveldb engines: a table holding more than the 4 MiB write buffer (100 rows x 25 cells x 3 KiB), a multi-message ReadRows, DropRowRange(delete all) between two of its messages -> handler panic 'leveldb/table: reader released' (also C18: the scan must end with OK); first seen by a wave-5 sub-agent on the unmodified code, reproduced, then found by the C20 concurrent mix once it got tables larger than the write buffer (replay in findings/)"),
+ ("C07", "fix: a listing could show an object that was being written", "file store: a listing (prefix = the object name) during an upload of that object returns the item with the content file's transient modification time as generation, metageneration 0 and no metadata - a version nobody was ever given; found once listings were added to the C07 workload as metadata reads (replay in findings/)"),
  ("C20", "fix: a GC rule with a negative", "CreateTable/ModifyColumnFamilies accept a GC rule with max_num_versions = -3; the next GC pass over a populated column panics (slice bounds out of range [:-3]) on the background goroutine"),
  ("C20", "fix: the CreateTable response shared", "data race: the CreateTable response shares the families map with the stored definition and is serialized after the handler returned, while ModifyColumnFamilies on the new table edits it (race supplement: ModifyColumnFamilies <-> proto.Marshal in CreateTable's response)"),
  ("C20", "fix: a metadata PATCH with the body", "PATCH of an object's metadata with the JSON body null -> nil dereference"),
